@@ -23,6 +23,39 @@ PROPS = {
     "C17": P("C17",
              regimes=["rw.oneword", "rw.twowords", "select.pdep", "select.portable", "mask.in", "bit_len", "reverse_low", "round.in"],
              trusted=["semantics of POPCNT/LZCNT/TZCNT/PDEP/bit-reversal are definitions in Model/Bits.lean"],
-             explanation="read/write at every offset and width, masks, rounding helpers: Lean theorems over the model + whole-table "
-                         "decide over tables regenerated from bits.rs; correspondence on all (offset<192,width) and on both select paths"),
+             explanation="read/write at every offset and width, masks, rounding helpers, both in-word select paths: Lean theorems over the "
+                         "model + whole-table decide over tables regenerated from bits.rs; correspondence on all (offset<192,width) and on both select paths"),
+    "C05": P("C05", regimes=["raw.push_int.straddle", "raw.set_int.straddle", "raw.resize.grow", "raw.resize.shrink", "raw.pop_int",
+                             "iv.push.truncating", "iv.pack.repack", "iv.pack.same", "iv.resize.grow", "iv.resize.shrink", "iv.pop", "iv.eq", "raw.eq"]),
+    "C01": P("C01", regimes=["bv.select.long", "zbv.select.long", "bv.select.short.scan", "bv.select.short.block", "bv.select.sample",
+                             "bv.rank.clamp", "bv.rank.word0", "bv.copy", "bv.from_bits", "bv.from_raw", "bv.pred", "bv.succ"]),
+    "C09": P("C09", regimes=["bv.rank.clamp", "bv.select.none", "sp.rank.clamp", "sp.select.none", "rl.rank.clamp", "wm.rank.absent",
+                             "wmc.mapup.below", "iv.ctor.reject", "bv.it.pred", "sp.it.pred", "rl.it.pred", "wm.it.pred"]),
+    "C08": P("C08", gens=["C08", "C09", "C10"], profiles=dict(quick=T, thorough=T), forbid=["oob", "child-died", "signal"],
+             regimes=["bv.it.one", "bv.it.zero", "bv.it.sel", "select.pdep", "select.portable"],
+             explanation="theorem: every unchecked read in the model is in range (an out-of-range read would be the distinct outcome `oob`), both "
+                         "arithmetic modes; runtime: the same recipes with bounds hooks on in all four build configurations"),
+    "C10": P("C10", regimes=["bv.it.one", "bv.it.zero", "bv.it.bits", "bv.it.sel", "bv.it.pred", "bv.it.succ", "sp.it.one", "sp.it.bits",
+                             "sp.it.bits.multiset", "sp.it.zero", "rl.it.one", "rl.it.zero", "rl.it.bits", "rl.it.run", "wm.it.value", "wm.it.items", "iv.iter"]),
+    "C02": P("C02", regimes=["sp.select0.binsearch", "sp.select0.scan", "sp.rank.clamp", "sp.build.set", "sp.build.reject", "sp.w.rule.match"],
+             trusted=["the f64 width rule of SparseBuilder::get_params is a parameter of the model (theorems hold for every width 1..63)"]),
+    "C15": P("C15", regimes=["sp.build.multiset", "sp.from_iter", "sp.it.bits.multiset", "sp.it.one"]),
+    "C16": P("C16", regimes=["sb.history", "sb.full", "sb.partial", "sb.new.reject", "rlb.history"]),
+    "C03": P("C03", regimes=["rl.blocks.1", "rl.blocks.le8", "rl.blocks.gt8", "rl.runs", "rl.select0", "rl.rank.clamp", "rl.build"]),
+    "C11": P("C11", regimes=["bv.copy", "sp.copy", "rl.copy", "rl.eq", "sp.eq", "bv.eq"]),
+    "C04": P("C04", regimes=["wm.type.u8", "wm.type.u16", "wm.type.u32", "wm.type.u64", "wm.type.usize", "wmc.mapdown", "wmc.mapup",
+                             "wm.rank.absent", "wm.select.absent", "wm.pred", "wm.succ"], shards=dict(quick=16, thorough=16)),
+    "C06": P("C06", regimes=["ser.reload.raw", "ser.reload.iv", "ser.reload.bv", "ser.reload.sp", "ser.reload.rl", "ser.reload.wm", "ser.seq",
+                             "ser.file", "ser.sizes", "ser.val.bytes", "ser.val.string", "ser.val.optu64", "ser.load.ok"]),
+    "C07": P("C07", regimes=["ser.load.ok", "sp.ser", "rl.ser", "wm.ser", "bv.ser"]),
+    "C12": P("C12", regimes=["wr.raw", "wr.int", "wr.buf.aligned", "wr.buf.unaligned", "wr.int.reject"]),
+    "C13": P("C13", regimes=["map.slice1", "map.slice2", "map.bytes", "map.str", "map.raw", "map.int", "map.optslice1", "map.offset.outside",
+                             "map.truncated", "map.inside"]),
+    "C14": P("C14", regimes=["ser.cutload.short", "ser.cutload.full", "ser.sink.fail", "ser.sink.ok", "ser.skipopt", "ser.load.cut.err",
+                             "map.truncated", "wr.limit.reported", "wr.limit.complete"]),
+    "C18": P("C18", regimes=["mmap.empty", "mmap.unaligned", "mmap.onepage", "mmap.manypages", "mmap.missing"], shards=dict(quick=1, thorough=1),
+             trusted=["kernel behaviour of mmap/munmap is a definition in Model/Mapper.lean, observed through /proc/self/maps by the harness"]),
+    "C19": P("C19", regimes=["ser.reload.bv", "bv.eq", "ser.skipopt", "ser.load.ok"]),
+    "C20": P("C20", regimes=["tmp.threads"], shards=dict(quick=1, thorough=1),
+             trusted=["atomicity and sequential consistency of AtomicUsize::fetch_add(SeqCst)"]),
 }
